@@ -32,6 +32,9 @@ type AbstractTokenizer struct {
 	Scanner        io.IScanner
 	NextTokenValue *Token
 	LastTokenType  int
+	// ReaderSerial counts the SetReader calls: tokenizers with reading modes
+	// of their own notice by it that a reader was attached (again)
+	ReaderSerial int
 }
 
 func InheritAbstractTokenizer(overrides ITokenizerOverrides) *AbstractTokenizer {
@@ -168,6 +171,7 @@ func (c *AbstractTokenizer) SetReader(value io.IScanner) {
 	c.Scanner = value
 	c.NextTokenValue = nil
 	c.LastTokenType = Unknown
+	c.ReaderSerial++
 }
 
 func (c *AbstractTokenizer) HasNextToken() bool {
